@@ -68,6 +68,9 @@ def T_sym(q):
 def T_elem(it):
     """an element of the iterable ``it`` (the value of a loop variable)"""
     while True:
+        if it[0] == 'coll' and len(it[1]) == 1:
+            (v, guards), = it[1]
+            return ('pick', v, guards)  # element of a local list that only ever received v (under the recorded tests)
         if it[0] == 'comp' and it[1] in ('list', 'set', 'gen') and all(not ifs for _i, ifs in it[3]):
             return it[2]  # every element of the comprehension has the form of its element expression
         if (
@@ -83,7 +86,19 @@ def T_elem(it):
         if m and m[1] == 'copy' and not m[2] and not m[3]:
             it = m[0]
             continue
+        if it[0] == 'call' and it[1] == ('sym', 'external:filter') and len(it[2]) == 2 and not it[3] and it[2][0][0] == 'lambda' and it[2][0][1] == 1:
+            x = T_elem(it[2][1])
+            return ('sel', x, subst(it[2][0][2], {('lp', 0): x}))  # an element of the iterable that satisfies the predicate
         return ('elem', it)
+
+
+def subst(t, mapping):
+    """replace sub-terms"""
+    if not isinstance(t, tuple):
+        return t
+    if t in mapping:
+        return mapping[t]
+    return tuple(subst(x, mapping) for x in t)
 
 
 def mcall(t):
@@ -146,6 +161,12 @@ def show(t, depth=0):
         return f'{show(t[1], depth + 1)}: {show(t[2], depth + 1)}'
     if k in ('list', 'tuple', 'set'):
         return '[' + ', '.join(show(x, depth + 1) for x in t[1]) + ']'
+    if k in ('pick', 'sel'):
+        return show(t[1], depth + 1)
+    if k == 'cmp':
+        return f'({show(t[2], depth + 1)} {t[1]} {show(t[3], depth + 1)})'
+    if k == 'not':
+        return f'not {show(t[1], depth + 1)}'
     if k == 'top':
         return f'?{t[1]}'
     return f'<{k}>'
@@ -259,7 +280,14 @@ class Scope:
         if isinstance(e, ast.NamedExpr):
             return self.term(e.value, loc)
         if isinstance(e, ast.Lambda):
-            return ('lambda', norm(e))
+            a = e.args
+            if a.vararg or a.kwarg or a.kwonlyargs or a.posonlyargs:
+                return ('lambda', -1, ('top', norm(e)))
+            loc2 = dict(loc)
+            nfree = len(a.args) - len(a.defaults)
+            for i, x in enumerate(a.args):
+                loc2[x.arg] = ('lp', i) if i < nfree else self.term(a.defaults[i - nfree], loc)
+            return ('lambda', nfree, self.term(e.body, loc2))  # parameters with defaults are bound to them (the k=known idiom)
         if isinstance(e, ast.Starred):
             return ('star', self.term(e.value, loc))
         return ('top', type(e).__name__)
@@ -418,6 +446,8 @@ def interesting_test(t):
     """tests whose outcome is remembered on the path (kept few: every remembered test doubles the path set)"""
     if t[0] == 'cmp' and t[1] in ('In', 'NotIn'):
         return True
+    if t[0] == 'cmp' and t[1] in ('Eq', 'NotEq') and all(x[0] == 'call' and x[1] == T_sym(TRIM_FN) for x in t[2:4]):
+        return True  # "same algorithm / same task?" comparisons of trimmed names
     m = mcall(t)
     if m and not m[2] and not m[3]:  # zero-argument method call used as a condition: "does A declare inputs?"
         return True
@@ -598,6 +628,21 @@ class Interp(Flow):
             tags = tags | {('op', f[2], f[1], args)}
         self.emit('call', call, {'f': f, 'args': args, 'kws': kws}, tags)
         st = (st[0], tags)
+        # content of a local list/set that is filled element by element: remember what was put in, and under which tests
+        if (
+            f[0] == 'attr'
+            and f[2] in ('append', 'add')
+            and len(args) == 1
+            and not kws
+            and isinstance(call.func.value, ast.Name)
+            and (f[1] in (('list', ()), ('set', ()), T_call(T_sym('external:set')), T_call(T_sym('external:list'))) or f[1][0] == 'coll')
+        ):
+            loc = self.loc(st)
+            if loc.get(call.func.value.id) == f[1]:
+                old = f[1][1] if f[1][0] == 'coll' else frozenset()
+                entry = (args[0], frozenset(t for t in tags if t[0] == 'test'))
+                loc[call.func.value.id] = ('coll', frozenset(old | {entry})) if len(old) < 8 else ('top', 'collection')
+                st = self.with_loc(st, loc)
         callee, selft = self.w.callee_func(f)
         if (
             callee is None
@@ -760,7 +805,7 @@ def get_attrkey(t):
 
 def local_collection(t):
     """a collection created locally: set() / [] / {} / list(...) / comprehension / copy"""
-    if t[0] in ('list', 'set', 'tuple', 'dict', 'comp'):
+    if t[0] in ('list', 'set', 'tuple', 'dict', 'comp', 'coll'):
         return True
     if t[0] == 'call' and t[1][0] == 'sym' and t[1][1] in ('external:set', 'external:list', 'external:dict', 'external:frozenset'):
         return True
@@ -771,8 +816,20 @@ def fresh_set(t):
     return t == T_call(T_sym('external:set'))
 
 
+_FBD = {}
+
+
 def feedback_derived(t):
     """the term is computed from an algorithm's feedback() declaration or from a node's 'feedback' attribute"""
+    hit = _FBD.get(id(t))
+    if hit is not None and hit[0] is t:
+        return hit[1]
+    r = _feedback_derived(t)
+    _FBD[id(t)] = (t, r)
+    return r
+
+
+def _feedback_derived(t):
     for s in subterms(t):
         m = mcall(s)
         if m and m[1] == 'feedback' and not m[2] and not m[3]:
@@ -925,9 +982,11 @@ def rule1(ctx, rep, fx):
         'edge insertion: for each factory kind the tree walk visits every value of every algorithm, registers it as a root iff the '
         "algorithm declares no inputs, and for every as_vref(<the kind's declared inputs>) reference adds the child node under the "
         'node named (task_name(factory), impl.name(), item.name(), feat); accessor table agrees with the element classes and schedule._priors',
-        floor=22,
+        floor=26,
         breaks='a declared input gets no edge / a reversed edge / an edge from the wrong accessor: the scheduler releases a consumer before its producer (C01-C05 rest on this graph)',
     ) as r:
+        r.note("value-level edges: Element.append is accepted next to Node.add (a duplicate child does not change the edge set); at the trimmed levels (R-C09-4) Node.add is required")
+        r.note('bot._name() is trusted to return the name the bot was constructed with (task_name(factory)); pl/scan.py (factory discovery) is not analysed')
         decl = declared_accessors(prog)
         table = {}
         for kind, accs in decl.items():
@@ -1130,6 +1189,31 @@ def rule1(ctx, rep, fx):
                     r.ok(key, f'{kind}: {okmsg}', ev0.where)
         r.extra['builders'] = facts_out
 
+        # ---- nothing else inserts children or roots
+        stray = {}
+        for e in ev:
+            if e.kind != 'call':
+                continue
+            f, a = e.data['f'], e.data['args']
+            if f[0] != 'attr' or f[2] not in GROW:
+                continue
+            in_ref_loop = any(t[0] == 'in' and (inp := ref_loop(t[2])) is not None and (m := mcall(inp)) and alg_info(m[0]) is not None for t in e.tags)
+            in_value_loop = any(
+                t[0] == 'in' and t[2][0] == 'elem' and t[2][1][0] == 'elem' and (m := mcall(t[2][1][1])) and m[1] == 'state_vectors' and alg_info(m[0]) is not None for t in e.tags
+            )
+            # receivers that are certainly not graph nodes: local collections, attribute sets <x>.get('k'), the root set
+            not_a_node = local_collection(f[1]) or get_attrkey(f[1]) is not None or f[1] == fx.ROOTS
+            if f[2] in NODE_INSERT and not not_a_node and not in_ref_loop:
+                stray[f'{e.func.qname}:{norm(e.node)}'] = (e, 'inserts a child edge outside the loop over the declared inputs of an algorithm: an edge that no declaration asks for')
+            if f[1] == fx.ROOTS and not in_value_loop:
+                stray[f'{e.func.qname}:{norm(e.node)}'] = (e, 'changes the root set outside the walk over the values of the algorithms')
+        r.instance()
+        if stray:
+            for key, (e, msg) in sorted(stray.items()):
+                r.fail(key, e.where, f'{norm(e.node)} {msg}')
+        else:
+            r.ok(f'{CONSTRUCT}:no-other-insertion', 'every child insertion reached from Construct.__init__ lies in a declared-input loop, every root registration in the value walk', where(fx.init))
+
         # ---- Node.add inserts the child when it is not there yet
         _node_add(prog, rep, r)
         # ---- schedule._priors agrees with the table
@@ -1240,6 +1324,10 @@ def rule2(ctx, rep, fx):
             for f in w.funcs.values():
                 rep.analysed(f)
             for e in w.events:
+                if e.kind not in ('iter_end', 'loop_broken', 'call', 'store'):
+                    continue
+                if e.kind == 'call' and not (e.data['f'][0] == 'attr' and e.data['f'][2] in GROW):
+                    continue
                 in_fb_loop = any(t[0] == 'in' and feedback_derived(t[2]) for t in e.tags)
                 if e.kind in ('iter_end', 'loop_broken') and feedback_derived(e.data['elem']):
                     handlers.add(e.func.qname)
@@ -1375,15 +1463,17 @@ def rule4(ctx, rep, fx):
         'granularity table: at/svt/tt are the value-level roots trimmed to the position of the algorithm / state-vector / task field of the '
         'arity-4 node names, vt is untrimmed; _trim_trees makes one short node per distinct trimmed name and trims every root; Node.trim looks '
         'the short node up by its own trimmed tag, copies every child edge with Node.add on the first visit of each value node and returns the short node',
-        floor=9,
+        floor=11,
         breaks='algorithm-level graph has merged/split nodes or lost edges: one node per algorithm and an edge per declared input no longer hold at the granularity the scheduler uses',
     ) as r:
-        # ---- name layout from the tree walk: position of the fields
+        r.note("the visitors guard is not required to exist (copying the children on every visit is slower but equivalent); required is that every first visit copies them and that the guard, if any, is keyed by the value node's own tag")
         r.instance()
         f, ok, det = trim_shape(prog, fx)
         rep.analysed(f)
         r.check(ok, f'{f.qname}:prefix', where(f), "trim(tag, n) == '.'.join(tag.split('.')[:n])", f"Construct.trim is not the n-component prefix '.'.join(tag.split('.')[:n]) but {det}")
-        levels = {'tt': 1, 'at': 2, 'svt': 3}  # 1 + index of the task / algorithm / state-vector field in child_name()
+        # 1 + position of the task / algorithm / state-vector field in the node names; child_name() (R-C09-1) pins the
+        # fields of the names built by the tree walk to exactly these positions, so the two rules cannot drift apart
+        levels = {'tt': 1, 'at': 2, 'svt': 3}
         SELF = fx.SELF
         stores = {}
         for e in fx.w.events:
@@ -1505,6 +1595,10 @@ def rule4(ctx, rep, fx):
                 probs.append((e, 'children are copied with the raw Element API instead of Node.add: one duplicate child per value-level edge'))
             else:
                 probs.append((e, f'a child is not copied as short_node.add(child.trim(known, length)) (insertions seen: {[show(t[2]) + "." + t[1] + "(" + ", ".join(show(a) for a in t[3]) + ")" for t in ops]})'))
+        for e in w2.events:
+            if e.kind == 'call' and e.func is nt and e.data['f'][0] == 'attr' and e.data['f'][2] in NODE_INSERT and e.data['f'][1] in (SN, S):
+                if e.data['args'] != (child_call,) and not any(feedback_derived(x) for x in e.data['args']):  # feedback: R-C09-2
+                    probs.append((e, f'{norm(e.node)} inserts something other than a trimmed child of the value node'))
         visitors = T_call(T_attr(SN, 'get'), (T_const('visitors'),))
         npaths = 0
         for tags, _kind in exits:
@@ -1527,6 +1621,14 @@ def rule4(ctx, rep, fx):
             r.fail(key, e.where if e is not None else where(nt), f'Node.trim: {msg}')
         else:
             r.ok(key, f'first visit of a value node: every child c -> short_node.add(c.trim(known, length)) ({npaths} first-visit paths, {len(ends)} iteration ends)', where(nt))
+        r.instance()
+        r.check(
+            _parents_copied(w2, nt, S, K, LL, SN),
+            f'{nt.qname}:parents-copied',
+            where(nt),
+            "short node 'parents' grows by known[trim(p.tag, length)] for every parent p of the value node",
+            "Node.trim does not carry the value node's parents over to the short node as known[trim(p.tag, length)]: algorithm-level parents are lost",
+        )
         # constants the scheduling attributes are keyed on
         r.instance()
         consts = set()
@@ -1545,6 +1647,244 @@ def rule4(ctx, rep, fx):
             f'Node.trim initialises the algorithm-level attributes for length in {sorted(consts)}, but at is trimmed to {levels["at"]}',
             nontrivial=False,
         )
+
+
+def _parents_copied(w2, nt, S, K, LL, SN):
+    """Node.trim: the short node's 'parents' receives known[trim(p.tag, length)] for every p of the value node's parents"""
+    P = T_elem(T_call(T_attr(S, 'get'), (T_const('parents'),)))
+    want = ('sub', K, TRIM(T_attr(P, 'tag'), LL))
+    src = T_call(T_attr(S, 'get'), (T_const('parents'),))
+
+    def from_parents(a):
+        return a[0] == 'comp' and a[1] in ('list', 'set', 'gen') and a[2] == want and len(a[3]) == 1 and a[3][0] == (src, ())
+
+    stored = set()
+    grown = set()
+    for e in w2.events:
+        if e.kind != 'call' or e.func is not nt:
+            continue
+        f, a = e.data['f'], e.data['args']
+        if f[0] != 'attr':
+            continue
+        if f[2] == 'set' and f[1] == SN and len(a) == 2 and is_const(a[0], 'parents'):
+            stored.add(a[1])
+        if f[2] in ('update', '__ior__') and len(a) == 1 and from_parents(a[0]):
+            grown.add(f[1])
+        if f[2] == 'add' and len(a) == 1 and a[0] == want and any(t[0] == 'in' and t[2] == P for t in e.tags):
+            grown.add(f[1])
+    direct = T_call(T_attr(SN, 'get'), (T_const('parents'),))
+    return bool(stored & grown) or direct in grown
+
+
+def rule6(ctx, rep, fx):
+    # pylint: disable=too-many-locals,too-many-branches,too-many-statements
+    prog = ctx.prog
+    with rep.rule(
+        'R-C09-6',
+        "parents mirror the child edges and the phases run in order: _parents gives every child of another algorithm the visited node as parent "
+        '(no other filter), and Construct.__init__ inserts all edges before _parents(roots, set()), runs _ancestry after it, and trims only after '
+        'ancestry and feedback are complete',
+        floor=5,
+        breaks="a node's parents/ancestry (what the release filter and the promotion engine read) miss declared inputs although the child edges exist",
+    ) as r:
+        pf = prog.func(CONSTRUCT + '._parents')
+        rep.analysed(pf)
+        ps = pf.params()
+        w = World(prog)
+        w.run_root(pf)
+        N = T_elem(('param', pf.qname, ps[1])) if len(ps) >= 2 else None
+        CH = T_elem(N) if N else None
+        at_level = 2  # 1 + index of the algorithm field of task.alg.sv.value (R-C09-4 ties `at` to the same number)
+        r.instance()
+        key = f'{pf.qname}:parent-of-every-child'
+        probs = []
+        parent_loops = 0
+        if N is None:
+            probs.append((None, '_parents does not take the list of nodes to visit'))
+        ends = [e for e in w.events if e.func is pf and e.kind in ('iter_end', 'loop_broken')] if N else []
+
+        def base(c):
+            return c[1] if c[0] == 'pick' else c
+
+        def same_alg(tests, c):
+            """-> (True if the path knows child and node are the same algorithm, list of tests on the child that are not understood)"""
+            same, foreign = False, []
+            for t in tests:
+                if t[0] != 'test' or CH not in list(subterms(t[1])):
+                    continue
+                tt = t[1]
+                sides = {tt[2], tt[3]} if tt[0] == 'cmp' and tt[1] in ('Eq', 'NotEq') else set()
+                if sides == {TRIM(T_attr(CH, 'tag'), T_const(at_level)), TRIM(T_attr(N, 'tag'), T_const(at_level))}:
+                    equal = t[2] if tt[1] == 'Eq' else not t[2]
+                    same = same or equal
+                else:
+                    foreign.append(tt)
+            return same, foreign
+
+        child_loops = {}
+        for e in ends:
+            if base(e.data['elem']) == CH:
+                child_loops.setdefault(e.data['lid'], []).append(e)
+        want_recv = lambda c: T_call(T_attr(c, 'get'), (T_const('parents'),))
+        for lid, evs in sorted(child_loops.items()):
+            c = evs[0].data['elem']
+            has = lambda e, c=c: any(t[0] == 'op' and t[1] == 'add' and t[2] == want_recv(c) and t[3] == (N,) for t in e.data['new'])
+            is_parent_loop = any(has(e) for e in evs)
+            collects = lambda e: any(t[0] == 'op' and t[1] in ('append', 'add') and t[3] == (CH,) and local_collection(t[2]) for t in e.data['new'])
+            is_collector = any(collects(e) for e in evs)
+            if not (is_parent_loop or is_collector):
+                continue
+            parent_loops += is_parent_loop
+            for e in evs:
+                if e.kind == 'loop_broken':
+                    probs.append((e, f'a loop over the children can stop early ({e.data["how"]})'))
+                    continue
+                tests = set(t for t in e.tags if t[0] == 'test') | (set(c[2]) if c[0] == 'pick' else set())
+                same, foreign = same_alg(tests, c)
+                if foreign:
+                    probs.append((e, f'the parent edge of a child depends on {show(foreign[0])}; only "child of another algorithm" (trim(child.tag, {at_level}) != trim(node.tag, {at_level})) may filter'))
+                    continue
+                if same:
+                    continue
+                if is_parent_loop and not has(e):
+                    probs.append((e, 'a child of another algorithm does not get the visited node added to its parents on some path'))
+                if is_collector and not is_parent_loop and not collects(e):
+                    probs.append((e, 'a child of another algorithm is not collected for the parent assignment on some path'))
+        # every visited node runs the loop(s)
+        for e in ends:
+            if e.data['elem'] == N:
+                if e.kind == 'loop_broken':
+                    probs.append((e, f'the loop over the visited nodes can stop early ({e.data["how"]})'))
+                elif not any(t[0] == 'loop-done' and base(t[2]) == CH and t[1] in child_loops for t in e.data['new']):
+                    probs.append((e, 'a visited node can skip the loop over its children'))
+        if not parent_loops and not probs:
+            probs.append((None, "no loop over the children of the visited node adds the node to the child's parents"))
+        if probs:
+            e, msg = probs[0]
+            r.fail(key, e.where if e is not None else where(pf), f'Construct._parents: {msg}')
+        else:
+            r.ok(key, f'child.parents.add(node) for every child of another algorithm (level {at_level}) of every visited node; {len(ends)} abstract iteration ends', where(pf))
+
+        _ancestry_facts(prog, rep, r, fx)
+
+        # ---- order of the phases in Construct.__init__
+        ev = fx.w.events
+        idx = {'edge': [], 'parents': [], 'ancestry': [], 'trim': [], 'feedback': []}
+        pcalls_all = []
+        for i, e in enumerate(ev):
+            if e.kind != 'call':
+                continue
+            f, a = e.data['f'], e.data['args']
+            callee, _s = fx.w.callee_func(f)
+            q = callee.qname if callee is not None else None
+            if q == CONSTRUCT + '._parents' and e.func is not callee:
+                idx['parents'].append(i)
+                pcalls_all.append((i, e))
+            elif q == CONSTRUCT + '._ancestry':
+                idx['ancestry'].append(i)
+            elif q == CONSTRUCT + '._trim_trees':
+                idx['trim'].append(i)
+            if f[0] == 'attr' and f[2] in NODE_INSERT and fx.node_key(f[1]) is not None:
+                idx['edge'].append(i)
+            if f[0] == 'attr' and f[2] in GROW and (gk := get_attrkey(f[1])) and gk[1] == 'feedback' and fx.flat_node(gk[0]):
+                idx['feedback'].append(i)
+        r.extra['phase_event_index'] = {k: (v[0], v[-1]) if v else None for k, v in idx.items()}
+        last_edge = max(idx['edge']) if idx['edge'] else None
+        pcalls = [e for i, e in pcalls_all if last_edge is not None and i > last_edge]
+        p_at = min((i for i, _e in pcalls_all if last_edge is not None and i > last_edge), default=None)
+        pcall = pcalls[0] if pcalls else (pcalls_all[0][1] if pcalls_all else None)
+        a_at = min((i for i in idx['ancestry'] if p_at is not None and i > p_at), default=None)
+        for name, cond, okmsg, failmsg in (
+            (
+                'parents-after-edges',
+                p_at is not None
+                and len(pcall.data['args']) == 2
+                and (pcall.data['args'][0] == fx.ROOTS or pcall.data['args'][0] == T_call(T_attr(fx.FLAT, 'values')))
+                and fresh_set(pcall.data['args'][1]),
+                '_parents(roots, set()) runs after the last edge insertion',
+                '_parents is not called (from the roots, with a fresh visited set) after all edges have been inserted: edges added later have no parent entry',
+            ),
+            (
+                'ancestry-after-parents',
+                a_at is not None,
+                '_ancestry runs after _parents',
+                '_ancestry is not called after the _parents pass that follows the last edge insertion: the closure is taken over incomplete parent sets',
+            ),
+            (
+                'trim-after-closure',
+                bool(idx['trim']) and a_at is not None and min(idx['trim']) > a_at and (not idx['feedback'] or min(idx['trim']) > max(idx['feedback'])),
+                'every _trim_trees runs after _ancestry and after the feedback attributes are filled',
+                'the trees are trimmed before ancestry / feedback are complete: the algorithm-level nodes copy incomplete sets',
+            ),
+        ):
+            r.instance()
+            r.check(cond, f'{fx.init.qname}:{name}', (pcall.where if pcall is not None else where(fx.init)), okmsg, failmsg)
+
+
+def _ancestry_facts(prog, rep, r, fx):
+    """what the shared closure rule (R-C09-3) leaves open about Construct._ancestry: whose parents seed and extend the
+    set, which frontier elements are skipped, and which node receives the result"""
+    af = prog.func(CONSTRUCT + '._ancestry')
+    rep.analysed(af)
+    w = World(prog)
+    w.run_root(af)
+    r.instance()
+    key = f'{af.qname}:own-closure'
+    writes = {}
+    for e in w.events:
+        if e.kind == 'call' and e.func is af and e.data['f'][0] == 'attr' and e.data['f'][2] in GROW:
+            gk = get_attrkey(e.data['f'][1])
+            if gk and gk[1] == 'ancestry':
+                writes[norm(e.node)] = (e, gk[0])
+    probs = []
+    if not writes:
+        probs.append((None, "nothing is written to an 'ancestry' attribute"))
+    for e, D in writes.values():
+        if not fx.all_flat_nodes(D):
+            probs.append((e, f'the ancestry is written for {show(D)}, which does not range over every node of the table'))
+            continue
+        a = e.data['args']
+        seed = T_elem(T_call(T_attr(D, 'get'), (T_const('parents'),)))
+        ok = len(a) == 1 and a[0][0] == 'comp' and a[0][2] == T_attr(seed, 'tag') and all(not ifs for _i, ifs in a[0][3])
+        if not ok:
+            probs.append((e, f"the written set is {show(a[0]) if a else '?'}; expected the tags of a set seeded with the same node's own parents"))
+        own_names = (T_attr(D, 'tag'), ('sub', D[1], T_const(0)) if D[0] == 'sub' else None)
+        # frontier loops: every iteration extends the sets by the parents of the frontier element
+        loops = [x for x in w.events if x.func is af and x.kind in ('iter_end', 'loop_broken') and any(t[0] == 'in' and t[2] == D or (t[0] == 'in' and D[0] == 'sub' and t[2] == D[1]) for t in x.tags)]
+        seen = 0
+        for x in loops:
+            el = x.data['elem']
+            if el == D or (D[0] == 'sub' and el == D[1]):
+                if x.kind == 'loop_broken':
+                    probs.append((x, f'the loop over the nodes can stop early ({x.data["how"]})'))
+                continue
+            seen += 1
+            if x.kind == 'loop_broken':
+                probs.append((x, f'the loop over the frontier can stop early ({x.data["how"]})'))
+                continue
+            if el[0] == 'sel':
+                pred, P = el[2], el[1]
+                self_excl = pred[0] == 'cmp' and (
+                    (pred[1] == 'NotEq' and {pred[2], pred[3]} & {T_attr(P, 'tag')} and {pred[2], pred[3]} & set(own_names))
+                    or (pred[1] == 'IsNot' and {pred[2], pred[3]} == {P, D})
+                )
+                if not self_excl:
+                    probs.append((x, f'frontier elements are skipped unless {show(pred)}; only the node itself may be skipped'))
+                    continue
+            elif any(t[0] == 'test' for t in x.data['new']):
+                probs.append((x, 'the expansion of a frontier element depends on a test that is not understood'))
+                continue
+            srcs = (T_call(T_attr(el, 'get'), (T_const('parents'),)), T_call(T_attr(('sub', fx.FLAT, T_attr(el, 'tag')), 'get'), (T_const('parents'),)))
+            ups = [t for t in x.data['new'] if t[0] == 'op' and t[1] in ('update', '__ior__') and len(t[3]) == 1]
+            if len([t for t in ups if t[3][0] in srcs]) < 2:
+                probs.append((x, f"an iteration over the frontier does not extend both the accumulated set and the next frontier with the frontier element's parents (updates seen: {[show(t[3][0]) for t in ups]})"))
+        if not seen:
+            probs.append((e, 'no loop over a frontier of parents was found'))
+    if probs:
+        e, msg = probs[0]
+        r.fail(key, e.where if e is not None else where(af), f'Construct._ancestry: {msg}')
+    else:
+        r.ok(key, "every node of the table: ancestry <- tags of (own parents, extended by the parents of every frontier element but the node itself)", where(af))
 
 
 def _known_table(D, fx, L):
@@ -1684,8 +2024,9 @@ def check(ctx):
         'root iff its declared inputs are empty, and every as_vref(inputs) reference adds child under parent with the task.alg.sv.value name, the accessor '
         'being the one the element class declares and schedule._priors uses; (2) nothing derived from feedback() reaches a child/parent/ancestor/root '
         'insertion and every feedback reference of every node is stored in the feedback map; (3) parents/ancestry form a transitive closure (shared rule); '
-        '(4) at/svt/tt/vt are trimmed at the field positions of the name, one short node per trimmed name, all child edges copied; (5) as_vref expands all '
-        'three reference levels to value level.  Not decided: functional exactness of the builder for every engine shape.',
+        '(4) at/svt/tt/vt are trimmed at the field positions of the name, one short node per trimmed name, all child edges and parents copied; (5) as_vref '
+        'expands all three reference levels to value level; (6) _parents gives every child of another algorithm its parent, and edges -> _parents -> _ancestry '
+        '-> trimming run in that order.  Not decided: functional exactness of the builder for every engine shape.',
         assumptions=[
             'dawgie.Task/Analysis/Regress._name() returns the name the bot was constructed with',
             'Algorithm/Analyzer/Regression are disjoint class hierarchies; ALG_REF/SV_REF/V_REF are distinct namedtuple types',
@@ -1696,7 +2037,9 @@ def check(ctx):
         'exactness of the derived graph for every engine shape (functional correctness of the builder as a whole)',
         'pl/scan.py: which factories are discovered and under which kind they are registered (runtime import machinery)',
         'util.names.task_name: uniqueness of the computed task prefix',
-        'duplicate entries in the at/svt/tt root lists (one per value-level root)',
+        'duplicate entries in the at/svt/tt root lists (one per value-level root; the node objects are unique)',
+        'algorithms without any value (no state vector / empty state vectors) get no node at all; an algorithm whose declared inputs expand to nothing is neither a root nor a child',
+        'two consumers feeding on the same value: the feedback map keeps the last one only',
     ]
     fx = Facts(ctx)
     for f in fx.w.funcs.values():
@@ -1708,7 +2051,146 @@ def check(ctx):
     shared.closure_rule(ctx, rep, 'R-C09-3')
     rule4(ctx, rep, fx)
     rule5(ctx, rep, fx)
+    rule6(ctx, rep, fx)
     return rep
 
 
-VARIANTS = []
+_D = 'pl/dag.py'
+_R = 'util/refs.py'
+_NODE_ATTRIB = """attrib={
+                        'alg': %s,
+                        'ancestry': set(),
+                        'factory': %s,
+                        'feedback': set(),
+                        'parents': set(),
+                    },"""
+# the three sibling builders as they are today (anchor text of the "merged into one" benign variant)
+_THREE_OLD = """def _sub_analysis(self, a, fn):
+        for ref in dawgie.util.as_vref(a.traits()):
+            pf, pi = ref.factory, ref.impl
+            pn = '.'.join( [ dawgie.util.task_name(pf), pi.name(), ref.item.name(), ref.feat, ] )
+            if pn not in self._flat:
+                self._flat[pn] = Node( pn, attrib={ 'alg': pi, 'ancestry': set(), 'factory': pf, 'feedback': set(), 'parents': set(), }, )
+            self._flat[pn].add(self._flat[fn])
+            pass
+        return
+    def _sub_regression(self, a, fn):
+        for ref in dawgie.util.as_vref(a.variables()):
+            ( pf, pi, ) = ( ref.factory, ref.impl, )
+            pn = '.'.join( [ dawgie.util.task_name(pf), pi.name(), ref.item.name(), ref.feat, ] )
+            if pn not in self._flat:
+                self._flat[pn] = Node( pn, attrib={ 'alg': pi, 'ancestry': set(), 'factory': pf, 'feedback': set(), 'parents': set(), }, )
+            self._flat[pn].add(self._flat[fn])
+            pass
+        return
+    def _sub_task(self, a, fn):
+        for ref in dawgie.util.as_vref(a.previous()):
+            ( pf, pi, ) = ( ref.factory, ref.impl, )
+            pn = '.'.join( [ dawgie.util.task_name(pf), pi.name(), ref.item.name(), ref.feat, ] )
+            if pn not in self._flat:
+                self._flat[pn] = Node( pn, attrib={ 'alg': pi, 'ancestry': set(), 'factory': pf, 'feedback': set(), 'parents': set(), }, )
+            self._flat[pn].add(self._flat[fn])
+            pass
+        return"""
+_THREE_NEW = """def _sub(self, a, fn, dep):
+        for ref in dawgie.util.as_vref(getattr(a, dep)()):
+            pn = dawgie.util.vref_as_name(ref)
+            if pn not in self._flat:
+                self._flat[pn] = Node(
+                    pn,
+                    attrib={
+                        'alg': ref.impl,
+                        'ancestry': set(),
+                        'factory': ref.factory,
+                        'feedback': set(),
+                        'parents': set(),
+                    },
+                )
+            parent, child = self._flat[pn], self._flat[fn]
+            parent.add(child)
+        return
+
+    def _sub_analysis(self, a, fn):
+        self._sub(a, fn, 'traits')
+
+    def _sub_regression(self, a, fn):
+        return self._sub(a, fn, 'variables')
+
+    def _sub_task(self, a, fn):
+        self._sub(a, fn, 'previous')"""
+
+VARIANTS = [
+    # ---- breaking
+    V('edge reversed in one sibling', 'B', _D, 'Construct._sub_task', 'self._flat[pn].add(self._flat[fn])', 'self._flat[fn].add(self._flat[pn])', 'R-C09-1'),
+    V('one sibling uses feedback() as inputs (edge rule)', 'B', _D, 'Construct._sub_regression', 'a.variables()', 'a.feedback()', 'R-C09-1'),
+    V('one sibling uses feedback() as inputs (feedback rule)', 'B', _D, 'Construct._sub_regression', 'a.variables()', 'a.feedback()', 'R-C09-2'),
+    V('accessor table: analysis roots decided by variables()', 'B', _D, 'Construct.__init__', "self._sub_analysis, 'traits',", "self._sub_analysis,\n            'variables',", 'R-C09-1'),
+    V('wrong builder registered for the analysis kind', 'B', _D, 'Construct.__init__', "self._sub_analysis, 'traits',", "self._sub_task,\n            'traits',", 'R-C09-1'),
+    V('edge only when the referenced node is new', 'B', _D, 'Construct._sub_analysis', 'self._flat[pn].add(self._flat[fn])', 'if len(self._flat[pn]) == 0:\n                self._flat[pn].add(self._flat[fn])', 'R-C09-1'),
+    V('referenced node carries the consumer algorithm', 'B', _D, 'Construct._sub_task', "'alg': pi,", "'alg': a,", 'R-C09-1'),
+    V('referenced node created without the absence test', 'B', _D, 'Construct._sub_regression', 'if pn not in self._flat:', 'if pn:', 'R-C09-1'),
+    V('parent name fields swapped', 'B', _D, 'Construct._sub_analysis', 'pi.name(), ref.item.name(),', 'ref.item.name(),\n                    pi.name(),', 'R-C09-1'),
+    V('root test inverted', 'B', _D, 'Construct._build_tree', 'if not getattr(alg, sub_dep)():', 'if getattr(alg, sub_dep)():', 'R-C09-1'),
+    V('edge builder only run for new nodes', 'B', _D, 'Construct._build_tree', 'sub_algs(alg, fn)', 'if self._flat[fn] in self._roots:\n                            sub_algs(alg, fn)', 'R-C09-1'),
+    V('value node recreated unconditionally', 'B', _D, 'Construct._build_tree', 'if fn not in self._flat:', 'if fn:', 'R-C09-1'),
+    V('Node.add appends only duplicates', 'B', _D, 'Node.add', 'if item.tag not in names:', 'if item.tag in names:', 'R-C09-1'),
+    V('_priors returns traits for a Regression', 'B', 'pl/schedule.py', '_priors', 'result = node.variables()', 'result = node.traits()', 'R-C09-1'),
+    V('_feedback inserts an ordering edge', 'B', _D, 'Construct._feedback', 'self._feedbacks[fbn] = node.tag', 'self._feedbacks[fbn] = node.tag\n                self._flat[fbn].add(node)', 'R-C09-2'),
+    V('_feedback writes the parents attribute', 'B', _D, 'Construct._feedback', "node.get('feedback').add(self._flat[fbn])", "node.get('parents').add(self._flat[fbn])", 'R-C09-2'),
+    V('feedback map filled only for unseen names', 'B', _D, 'Construct._feedback', 'self._feedbacks[fbn] = node.tag', 'if fbn in self._feedbacks:\n                    self._feedbacks[fbn] = node.tag', 'R-C09-2'),
+    V('feedback map keyed by the consumer', 'B', _D, 'Construct._feedback', 'self._feedbacks[fbn] = node.tag', 'self._feedbacks[node.tag] = fbn', 'R-C09-2'),
+    V('feedback collected for the roots only', 'B', _D, 'Construct._feedback', 'for node in self._flat.values():', 'for node in self._roots:', 'R-C09-2'),
+    V('Node.trim copies feedback as a child edge', 'B', _D, 'Node.trim', "short_node.get('feedback').add(f.trim(known, length))", 'short_node.add(f.trim(known, length))', 'R-C09-2'),
+    V('_ancestry stops after one round', 'B', _D, 'Construct._ancestry', 'parents = grands', 'parents = set()', 'R-C09-3'),
+    V('_parents does not recurse', 'B', _D, 'Construct._parents', 'self._parents( list(filter(lambda n, k=known: n.tag not in k, children)), known )', 'pass', 'R-C09-3'),
+    V('at trimmed to 3 components', 'B', _D, 'Construct.__init__', 'self._at = self._trim_trees(2)', 'self._at = self._trim_trees(3)', 'R-C09-4'),
+    V('tt trimmed to 2 components', 'B', _D, 'Construct.__init__', 'self._tt = self._trim_trees(1)', 'self._tt = self._trim_trees(2)', 'R-C09-4'),
+    V('vt trimmed', 'B', _D, 'Construct.__init__', 'self._vt = self._roots', 'self._vt = self._trim_trees(4)', 'R-C09-4'),
+    V('trim keeps one component too many', 'B', _D, 'Construct.trim', "tag.split('.')[:length]", "tag.split('.')[: length + 1]", 'R-C09-4'),
+    V('Node.trim does not copy the children', 'B', _D, 'Node.trim', 'short_node.add(c.trim(known, length))', 'pass', 'R-C09-4'),
+    V('Node.trim repeat-visit guard keyed by the short name', 'B', _D, 'Node.trim', "if self.tag not in short_node.get('visitors'):", "if short_name not in short_node.get('visitors'):\n            short_node.get('visitors').add(short_name)", 'R-C09-4'),
+    V('Node.trim trims the children one level deeper', 'B', _D, 'Node.trim', 'short_node.add(c.trim(known, length))', 'short_node.add(c.trim(known, length + 1))', 'R-C09-4'),
+    V('Node.trim returns the value node', 'B', _D, 'Node.trim', 'return short_node', 'return self', 'R-C09-4'),
+    V('short nodes only for the roots', 'B', _D, 'Construct._trim_trees', 'trimmed = {Construct.trim(leaf, length) for leaf in self._flat}', 'trimmed = {Construct.trim(leaf.tag, length) for leaf in self._roots}', 'R-C09-4'),
+    V('only roots with children are trimmed', 'B', _D, 'Construct._trim_trees', 'result.append(root.trim(trimmed, length))', 'if len(root):\n                result.append(root.trim(trimmed, length))', 'R-C09-4'),
+    V('algorithm-level parents not carried over', 'B', _D, 'Node.trim', "short_node.set('parents', aset)", 'pass', 'R-C09-4'),
+    V('as_vref drops ALG_REF', 'B', _R, 'as_vref', 'if isinstance(reference, dawgie.ALG_REF):', 'if isinstance(reference, dawgie.ALG_REF) and False:', 'R-C09-5'),
+    V('as_vref yields the SV_REF itself', 'B', _R, 'as_vref', 'yield from svref2vref(reference)', 'yield reference', 'R-C09-5'),
+    V('svref2vref puts the state vector in impl', 'B', _R, 'svref2vref', 'impl=ref.impl', 'impl=ref.item', 'R-C09-5'),
+    V('algref2svref expands the first state vector only', 'B', _R, 'algref2svref', 'for sv in ref.impl.state_vectors()', 'for sv in ref.impl.state_vectors()[:1]', 'R-C09-5'),
+    V('vref_as_name field order', 'B', _R, 'vref_as_name', 'vref.impl.name(), vref.item.name(),', 'vref.item.name(),\n            vref.impl.name(),', 'R-C09-5'),
+    V('_parents keeps same-algorithm children only', 'B', _D, 'Construct._parents', 'if self.trim(child.tag, 2) != self.trim(node.tag, 2):', 'if self.trim(child.tag, 2) == self.trim(node.tag, 2):', 'R-C09-6'),
+    V('_parents compares at task level', 'B', _D, 'Construct._parents', 'if self.trim(child.tag, 2) != self.trim(node.tag, 2):', 'if self.trim(child.tag, 1) != self.trim(node.tag, 1):', 'R-C09-6'),
+    V('_parents gives parents to unknown children only', 'B', _D, 'Construct._parents', "child.get('parents').add(node)", "if child.tag not in known:\n                    child.get('parents').add(node)", 'R-C09-6'),
+    V('_ancestry before _parents', 'B', _D, 'Construct.__init__', "self._parents(self._roots, set()) LOG.info('Construct() - build ancestry') self._ancestry()", 'self._ancestry()\n        self._parents(self._roots, set())', 'R-C09-6'),
+    V(
+        'task tree built after _parents',
+        'B',
+        _D,
+        'Construct.__init__',
+        "self._build_tree( factories[dawgie.Factories.task], Shape.ellipse, self._sub_task, 'previous', ) self._feedbacks = {} self._feedback() LOG.info('Construct() - build parents') self._parents(self._roots, set())",
+        "self._parents(self._roots, set())\n        self._build_tree(\n            factories[dawgie.Factories.task],\n            Shape.ellipse,\n            self._sub_task,\n            'previous',\n        )\n        self._feedbacks = {}\n        self._feedback()",
+        'R-C09-6',
+    ),
+    V('trim before ancestry', 'B', _D, 'Construct.__init__', 'self._ancestry()', 'self._xt = self._trim_trees(2)\n        self._ancestry()', 'R-C09-6'),
+    # ---- benign
+    V('additional early _ancestry pass (the later one still follows _parents)', 'N', _D, 'Construct.__init__', 'self._parents(self._roots, set())', 'self._ancestry()\n        self._parents(self._roots, set())', None),
+    V('three builders merged into one parametrised function', 'N', _D, None, _THREE_OLD, _THREE_NEW, None),
+    V('rename pn', 'N', _D, None, 'pn', 'parent_name', None, 'all'),
+    V('hoist nodes into locals and log', 'N', _D, 'Construct._sub_regression', 'self._flat[pn].add(self._flat[fn])', "parent = self._flat[pn]\n            child = self._flat[fn]\n            LOG.debug('edge %s -> %s', pn, fn)\n            parent.add(child)", None),
+    V('parent name as f-string', 'N', _D, 'Construct._sub_task', "pn = '.'.join( [ dawgie.util.task_name(pf), pi.name(), ref.item.name(), ref.feat, ] )", "pn = f'{dawgie.util.task_name(pf)}.{pi.name()}.{ref.item.name()}.{ref.feat}'", None),
+    V('parent name through vref_as_name', 'N', _D, 'Construct._sub_analysis', "pn = '.'.join( [ dawgie.util.task_name(pf), pi.name(), ref.item.name(), ref.feat, ] )", 'pn = dawgie.util.vref_as_name(ref)', None),
+    V('inverted creation test', 'N', _D, 'Construct._sub_analysis', 'if pn not in self._flat:', 'if pn in self._flat:\n                pass\n            else:', None),
+    V('root test through a local', 'N', _D, 'Construct._build_tree', 'if not getattr(alg, sub_dep)():', 'deps = getattr(alg, sub_dep)()\n                        if not deps:', None),
+    V('child name from task_name(factory)', 'N', _D, 'Construct._build_tree', 'bot._name(),', 'dawgie.util.task_name(factory),', None),
+    V('_trim_trees returns a comprehension', 'N', _D, 'Construct._trim_trees', 'for root in self._roots: result.append(root.trim(trimmed, length)) return result', 'return [root.trim(trimmed, length) for root in self._roots]', None),
+    V('Node.trim early return on repeat visit', 'N', _D, 'Node.trim', "if self.tag not in short_node.get('visitors'):", "if self.tag in short_node.get('visitors'):\n            return short_node\n        if True:", None),
+    V('Node.trim iterates a copy of the children', 'N', _D, 'Node.trim', 'for c in self:', 'for c in list(self):', None),
+    V('_feedback over items() with reordered statements', 'N', _D, 'Construct._feedback', "for node in self._flat.values():", "for _name, node in self._flat.items():", None),
+    V('_parents assigns while collecting', 'N', _D, 'Construct._parents', "children.append(child)", "children.append(child)\n                    LOG.debug('parent %s of %s', node.tag, child.tag)", None),
+    V('Node.add early return', 'N', _D, 'Node.add', 'if item.tag not in names: self.append(item) return', 'if item.tag in names:\n            return\n        self.append(item)', None),
+    V('as_vref with elif', 'N', _R, 'as_vref', 'if isinstance(reference, dawgie.SV_REF):', 'elif isinstance(reference, dawgie.SV_REF):', None),
+    V('svref2vref positional fields', 'N', _R, 'svref2vref', 'factory=ref.factory, impl=ref.impl, item=ref.item, feat=key', 'ref.factory, ref.impl, ref.item, key', None),
+    V('as_vref expands ALG_REF with nested loops', 'N', _R, 'as_vref', 'for svref in algref2svref(reference): yield from svref2vref(svref)', 'for sv in reference.impl.state_vectors():\n                for key in sv:\n                    yield dawgie.V_REF(reference.factory, reference.impl, sv, key)', None),
+    V('_priors with early returns', 'N', 'pl/schedule.py', '_priors', 'result = node.traits()', 'return node.traits()', None),
+]
